@@ -88,6 +88,53 @@ def strip_lean_comments(src: str) -> str:
 PINNED_GEN = ROOT / 'translate' / 'pinned_gen'
 
 
+def repo_internal_names(repo: Path) -> set:
+    """every non-public name the source defines: `def _x`, `self._x = …` / `self._x: T = …`, module- and class-level `_X = …`."""
+    import ast
+    names = set()
+    for p in (repo / 'bobocep').rglob('*.py'):
+        try:
+            tree = ast.parse(p.read_text())
+        except SyntaxError:
+            continue
+        for n in ast.walk(tree):
+            if isinstance(n, (ast.FunctionDef, ast.AsyncFunctionDef, ast.ClassDef)) and n.name.startswith('_'):
+                names.add(n.name)
+            elif isinstance(n, (ast.Assign, ast.AnnAssign, ast.AugAssign)):
+                tgts = n.targets if isinstance(n, ast.Assign) else [n.target]
+                for t in tgts:
+                    for m in ast.walk(t):
+                        if isinstance(m, ast.Attribute) and m.attr.startswith('_'):
+                            names.add(m.attr)
+                        elif isinstance(m, ast.Name) and m.id.startswith('_'):
+                            names.add(m.id)
+    return names
+
+
+def missing_internals() -> List[str]:
+    """non-public names of bobocep that the harness modules loaded for this check rely on and the current source no longer
+    defines (harness/pinned_internals.json, written by tools/pin_internals.py)."""
+    pin = ROOT / 'harness' / 'pinned_internals.json'
+    if not pin.exists():
+        return []
+    table = json.loads(pin.read_text())
+    loaded = set()
+    for m in list(sys.modules.values()):
+        f = getattr(m, '__file__', None)
+        if f:
+            try:
+                loaded.add(str(Path(f).resolve().relative_to(ROOT)))
+            except ValueError:
+                pass
+    need = {}
+    for f, names in table.items():
+        if f in loaded:
+            for n in names:
+                need.setdefault(n, f)
+    have = repo_internal_names(REPO)
+    return sorted(f"{n} (used by {need[n]})" for n in need if n not in have)
+
+
 def restore_pinned(name: str) -> bool:
     """
     Translator `name` could not regenerate its fragment from the current source: put back the fragment generated
@@ -191,20 +238,29 @@ def _import_closure(path: Path) -> List[Path]:
     return sorted(seen)
 
 
-def lean_build_and_audit(prop: str, extra_modules: List[str] = (), thorough: bool = False) -> LeanStatus:
+def lean_build_and_audit(prop: str, extra_modules: List[str] = (), thorough: bool = False,
+                         extra_props: List[str] = ()) -> LeanStatus:
+    """`extra_props`: further modules under Props/ whose theorems are obligations of this property too (e.g. `C01Decider`,
+    which cannot live in Props/C01.lean because the lemmas it needs import Props/C01 themselves)."""
     t0 = time.time()
     st = LeanStatus()
     props_file = LEAN / 'BoboVerif' / 'Props' / f'{prop}.lean'
     st.theorems = _theorem_names(props_file)
     mod = f'BoboVerif.Props.{prop}'
+    more = [f'BoboVerif.Props.{x}' for x in extra_props]
+    for x in extra_props:
+        st.theorems += _theorem_names(LEAN / 'BoboVerif' / 'Props' / f'{x}.lean')
 
     # hygiene grep over everything this property's module imports inside the project (comments stripped)
-    for p in _import_closure(props_file):
+    closure = set(_import_closure(props_file))
+    for x in extra_props:
+        closure |= set(_import_closure(LEAN / 'BoboVerif' / 'Props' / f'{x}.lean'))
+    for p in sorted(closure):
         m = FORBIDDEN.search(strip_lean_comments(p.read_text()))
         if m:
             st.messages.append(f"hygiene: forbidden token {m.group(0).strip()!r} in {rel(p)}")
 
-    r = subprocess.run(['lake', 'build', mod, 'bobodrv'] + list(extra_modules), cwd=LEAN,
+    r = subprocess.run(['lake', 'build', mod, 'bobodrv'] + more + list(extra_modules), cwd=LEAN,
                        capture_output=True, text=True)
     st.driver_ok = DRIVER.exists()
     if r.returncode != 0:
@@ -221,7 +277,7 @@ def lean_build_and_audit(prop: str, extra_modules: List[str] = (), thorough: boo
     audit_dir = LEAN / '.lake' / 'audit'
     audit_dir.mkdir(parents=True, exist_ok=True)
     af = audit_dir / f'Audit{prop}.lean'
-    af.write_text(f'import {mod}\n' + ''.join(f'#print axioms {t}\n' for t in st.theorems))
+    af.write_text(f'import {mod}\n' + ''.join(f'import {m}\n' for m in more) + ''.join(f'#print axioms {t}\n' for t in st.theorems))
     r = subprocess.run(['lake', 'env', 'lean', str(af)], cwd=LEAN, capture_output=True, text=True)
     out = r.stdout + r.stderr
     if r.returncode != 0:
@@ -244,7 +300,7 @@ def lean_build_and_audit(prop: str, extra_modules: List[str] = (), thorough: boo
             st.discharged.append(t)
 
     if thorough and st.build_ok:
-        r = subprocess.run(['lake', 'env', 'leanchecker', mod], cwd=LEAN, capture_output=True, text=True)
+        r = subprocess.run(['lake', 'env', 'leanchecker', mod] + more, cwd=LEAN, capture_output=True, text=True)
         if r.returncode != 0:
             st.messages.append('leanchecker rejected ' + mod + ': ' + (r.stdout + r.stderr)[-400:])
             st.discharged = []
@@ -339,6 +395,7 @@ class PropSpec:
     search: Optional[Callable[['Ctx'], Result]] = None    # deeper failing-input search on the real code
     rule: str = ''
     g_required: List[str] = field(default_factory=list)   # translators whose fragment no D run exercises (none today)
+    extra_props: List[str] = field(default_factory=list)  # further Props/<X>.lean modules whose theorems are obligations here
     trusted_base: List[str] = field(default_factory=list)
     assumptions: List[str] = field(default_factory=list)
     model_covers: str = ''
@@ -386,9 +443,30 @@ def check_main(spec: PropSpec, tier: str, replay_path: Optional[str] = None) -> 
                 g_fallback.remove(m)
                 broken.append(m)
         ctx.tie_broken = broken + g_fallback
-        ctx.lean = lean_build_and_audit(spec.prop, thorough=(tier == 'thorough'))
+        ctx.lean = lean_build_and_audit(spec.prop, thorough=(tier == 'thorough'), extra_props=spec.extra_props)
     lean = ctx.lean
     obligations_broken = list(broken) + list(lean.messages)
+
+    # the harness drives the real classes through non-public entry points (doubles for `_tcp_send`, `_now`, one pass of
+    # `_tcp_outgoing`, …): if one of those names is gone the correspondence cannot be run — running it anyway would probe
+    # nothing (or hang on real sockets), so this is reported as a correspondence that no longer checks
+    gone = missing_internals() if not os.environ.get('VERIF_SKIP_INTERNALS_CHECK') else []
+    if gone:
+        msg = ('correspondence cannot be run: the harness relies on non-public names the source no longer defines: '
+               + ', '.join(gone[:12]))
+        p = write_replay(spec.prop, seed, 'unproved', {
+            'property': spec.prop, 'no_longer_checks': [msg] + list(broken) + list(g_fallback) + list(lean.messages),
+            'note': 'the real code could not be driven; no failing input could be searched for'})
+        print(f"VIOLATION property={spec.prop} replay={rel(p)} no-failing-input-found")
+        print(f"{spec.prop} {tier}: {msg[:300]} -> exit 1")
+        EVIDENCE.mkdir(exist_ok=True)
+        (EVIDENCE / f'{spec.prop}.json').write_text(json.dumps({
+            'property_id': spec.prop, 'tier': tier, 'seed': seed, 'level': 'proof',
+            'coverage': {'obligations': max(len(lean.theorems) + len(spec.translators), 1), 'discharged': len(lean.discharged),
+                         'checker_cmd': f'cd lean && lake build BoboVerif.Props.{spec.prop}',
+                         'trusted_base': GENERIC_TRUSTED + spec.trusted_base, 'broken_obligations': [msg]},
+            'assumptions': spec.assumptions, 'wall_s': round(time.time() - t0, 2), 'violations': 1}, indent=1, default=str))
+        return 1
 
     # 4-5: correspondence + oracle on the real code
     res = spec.run(ctx)
@@ -450,7 +528,7 @@ def check_main(spec: PropSpec, tier: str, replay_path: Optional[str] = None) -> 
         'coverage': {
             'obligations': max(n_ob, 1),
             'discharged': n_dis,
-            'checker_cmd': f'cd lean && lake build BoboVerif.Props.{spec.prop} && lake env lean .lake/audit/Audit{spec.prop}.lean'
+            'checker_cmd': f'cd lean && lake build BoboVerif.Props.{spec.prop} ' + ' '.join('BoboVerif.Props.' + x for x in spec.extra_props) + f' && lake env lean .lake/audit/Audit{spec.prop}.lean'
                            + (' && lake env leanchecker BoboVerif.Props.' + spec.prop if tier == 'thorough' else ''),
             'trusted_base': GENERIC_TRUSTED + spec.trusted_base,
             'theorems': lean.theorems,
